@@ -238,6 +238,80 @@ pub fn check_match(code: u16, shape: u8, class: u16) -> Vec<Finding> {
     }
 }
 
+fn parsed_bodies(code: u16) -> Vec<Vec<u8>> {
+    let mut bodies: Vec<Vec<u8>> = Vec::new();
+    for n in 0..=10usize {
+        bodies.push(vec![0u8; n]);
+    }
+    for k in 0..=4usize {
+        let mut b = vec![1, b'a', 0];
+        b.extend(std::iter::repeat(0x12).take(k));
+        bodies.push(b);
+    }
+    bodies.push(vec![0xff, 0xff, 0xff]);
+    bodies.push(vec![0xc0, 0x0c]);
+    if let Some(sch) = schema::schema(code) {
+        let mut e = Vec::new();
+        schema::encode_vals(sch, &gen::default_vals(sch), &mut e);
+        bodies.push(e);
+    }
+    bodies
+}
+
+/// A record of TYPE `code` and the given raw CLASS field with `body` as RDATA, parsed from the
+/// wire: whatever the class and however the RDATA is shaped, an accepted record reports the
+/// type its TYPE field denotes and the class its CLASS field denotes.
+pub fn check_parsed_type(code: u16, class_raw: u16, body: &[u8]) -> (Vec<Finding>, bool) {
+    let case = json!({"kind": "parsed", "code": code, "class": class_raw, "body": crate::engine::hex(body)});
+    let mut m: Vec<u8> = vec![0x18, 0x18, 0x84, 0, 0, 1, 0, 1, 0, 0, 0, 0, 1, b'q', 0, 0, 1, 0, 1, 0xc0, 12];
+    m.extend_from_slice(&code.to_be_bytes());
+    m.extend_from_slice(&class_raw.to_be_bytes());
+    m.extend_from_slice(&[0, 0, 0, 5]);
+    m.extend_from_slice(&(body.len() as u16).to_be_bytes());
+    m.extend_from_slice(body);
+    let r = guarded(|| {
+        let mut bad: Vec<(String, String)> = Vec::new();
+        let p = match Packet::parse(&m) {
+            Ok(p) => p,
+            Err(_) => return (bad, false),
+        };
+        if code == 41 {
+            return (bad, false);
+        }
+        let Some(rec) = p.answers.first() else {
+            bad.push(("parsed-missing".into(), "accepted, but the record is not in answers".into()));
+            return (bad, true);
+        };
+        let tc = rec.rdata.type_code();
+        if u16::from(tc) != code || tc != lib_type(code) {
+            bad.push(("parsed-type".into(), format!("wire TYPE {} CLASS {:#06x} RDATA {}: type_code() = {:?} ({})", code, class_raw, crate::engine::hex(body), tc, u16::from(tc))));
+        }
+        if class_num(rec.class) != class_raw & 0x7fff || rec.cache_flush != (class_raw & 0x8000 != 0) {
+            bad.push(("parsed-class".into(), format!("wire CLASS {:#06x}: class {:?} cache_flush {}", class_raw, rec.class, rec.cache_flush)));
+        }
+        if !rec.match_qtype(QTYPE::ANY) || !rec.match_qclass(QCLASS::ANY) {
+            bad.push(("parsed-any".into(), "record does not match ANY".into()));
+        }
+        if let Ok(q) = QTYPE::try_from(code) {
+            if let QTYPE::TYPE(_) = q {
+                if !rec.match_qtype(q) {
+                    bad.push(("parsed-own-type".into(), format!("record of wire TYPE {} does not match a question for that type", code)));
+                }
+            }
+        }
+        for other in [1u16, 3, 5, 10, 16, 28, 33] {
+            if other != code && rec.match_qtype(QTYPE::TYPE(lib_type(other))) {
+                bad.push(("parsed-other-type".into(), format!("record of wire TYPE {} (CLASS {:#06x}, RDATA {}) matches a question for type {}", code, class_raw, crate::engine::hex(body), other)));
+            }
+        }
+        (bad, true)
+    });
+    match r {
+        Err(p) => (vec![finding(format!("C18|parsed|{}", p.sig()), format!("{:?}", p), case)], true),
+        Ok((bad, acc)) => (bad.into_iter().map(|(n, d)| finding(format!("C18|{}", n), d, case.clone())).collect(), acc),
+    }
+}
+
 /// TYPE::Unknown(code) equals the record's type only when the code has no mnemonic at all
 fn schema_less(code: u16) -> bool {
     !iana().iter().any(|e| e.1 == code)
@@ -281,6 +355,34 @@ pub fn run(ctx: &Ctx) {
     t.outcome("match");
     ctx.merge(t);
     ctx.space("match matrix: 46 record type codes x {content, empty RDATA} x 5 classes x {built, parsed} x 44 question types x 6 question classes", n, "complete");
+    {
+        let codes: Vec<u16> = (0..=65535u16).collect();
+        let shards: Vec<&[u16]> = codes.chunks(512).collect();
+        let total = std::sync::atomic::AtomicU64::new(0);
+        par_shards(ctx, &shards, |cs, t: &mut Tally| {
+            let mut n = 0u64;
+            for &c in cs.iter() {
+                let bodies = parsed_bodies(c);
+                for class in [1u16, 2, 3, 4, 254, 0x8001, 0x8003] {
+                    for b in &bodies {
+                        n += 1;
+                        t.evals += 1;
+                        let (f, acc) = check_parsed_type(c, class, b);
+                        if acc {
+                            t.nontrivial += 1;
+                        }
+                        t.outcome(if acc { "parsed" } else { "rejected" });
+                        if !f.is_empty() {
+                            ctx.violations(f);
+                        }
+                    }
+                }
+            }
+            total.fetch_add(n, std::sync::atomic::Ordering::Relaxed);
+        });
+        ctx.space("parsed records: every TYPE code 0..=65535 x 7 CLASS fields (5 classes, 2 with the cache-flush bit) x generic RDATA bodies (zeros of length 0..=10, a short name plus 0..=4 bytes, ff ff ff, a pointer, the type's canonical sample): an accepted record reports the wire TYPE and CLASS and matches exactly its own type", total.load(std::sync::atomic::Ordering::Relaxed), "complete");
+        ctx.sample(json!({"kind": "parsed", "code": 1, "class": 3, "body": "0161001234"}));
+    }
     ctx.sample(json!({"kind": "match", "code": 10, "shape": 0, "class": 1}));
     ctx.sample(json!({"kind": "match", "code": 8, "shape": 1, "class": 3}));
 }
@@ -288,6 +390,7 @@ pub fn run(ctx: &Ctx) {
 pub fn replay(case: &Value) -> Vec<Finding> {
     match case["kind"].as_str().unwrap_or("") {
         "code" => check_code(case["code"].as_u64().unwrap_or(0) as u16),
+        "parsed" => check_parsed_type(case["code"].as_u64().unwrap_or(0) as u16, case["class"].as_u64().unwrap_or(1) as u16, &crate::engine::unhex(case["body"].as_str().unwrap_or(""))).0,
         "match" => check_match(
             case["code"].as_u64().unwrap_or(0) as u16,
             case["shape"].as_u64().unwrap_or(0) as u8,
